@@ -104,8 +104,16 @@ Print Assumptions C17_quiescent_timeout_answers_all.
 (* success only when the blob has been in the local cache at some point since the call *)
 Theorem C17_success_justified : forall c kn ops w,
   In (w, RNil) (results (run c kn ops)) -> In w (seen (run c kn ops)).
-Proof. exact Proof.C17.success_justified. Qed.
+Proof. exact Proof.C17.success_seen. Qed.
 Print Assumptions C17_success_justified.
+
+(* ... and, unless the cache evicted it asynchronously somewhere in the schedule, the blob was in
+   the cache when the request was made or after some event applied since (so: never a success
+   for a blob that the scheduler itself has just deleted, or that never arrived) *)
+Theorem C17_success_when_cached : forall c kn ops w,
+  wf ops = true -> In (w, RNil) (results (run c kn ops)) -> success_justified c kn ops w = true.
+Proof. exact Proof.C17.success_when_cached. Qed.
+Print Assumptions C17_success_when_cached.
 
 (* executable form evaluated on observed schedules *)
 Theorem C17_check_sound : forall c kn ops,
@@ -185,4 +193,15 @@ Example C17_nonvacuous_quiescent :
   let ops := [Download 1 0; Download 2 0; ApNew 2; ApNew 1] in
   wf ops = true /\ stopped (run (mkCfg 10 60) [0] ops) = false /\ pending (run (mkCfg 10 60) [0] ops) = [] /\
   results (run (mkCfg 10 60) [0] (ops ++ [Advance 60; TickSend; ApTick])) = [(2, RTimeout); (1, RTimeout)].
+Proof. vm_compute. repeat split. Qed.
+
+(* the schedule that refuted a first, too strong form of the success clause (justified only after
+   an applied event): call 2 is made while the blob is cached, an overlapping RemoveTorrent is
+   applied next, then call 2 is told success; it is justified by its own request step *)
+Example C17_nonvacuous_overlapping_removal :
+  let ops := [Download 1 0; ApNew 1; Feed 0; ApComplete 0; Remove 0; Download 2 0; ApRemove 0; ApNew 2;
+              Stop; ApShutdown] in
+  results (run (mkCfg 10 60) [0] ops) = [(1, RNil); (2, RNil)] /\
+  success_justified (mkCfg 10 60) [0] ops 2 = true /\ evicted_in 0 ops = false /\
+  cache (run (mkCfg 10 60) [0] ops) = [].
 Proof. vm_compute. repeat split. Qed.
